@@ -1,6 +1,6 @@
 (* nvref_c14: replays the decoded instruction stream logged by probes/heap_trace.c on the extracted heap model.
    input   R                                   reset to the initial state
-           I <step> <ip> <opcode-hex> <name> <nops> <operand>... | p <v0> <v1> <v2> | c <arity> <locals> <isclos> | k <key>
+           I <step> <ip> <opcode-hex> <name> <nops> <operand>... | p <v0> <v1> <v2> | c <arity> <locals> <isclos> | k <key> | d <delta>
            C <same fields>                     print the model instruction as Coq source text (no state change)
    output  S <stack_size> <frame_count> <leak> <inv> <exact> <id>:<tag>:<rc>:<indeg> ...     state after the instruction
            U <why>      instruction outside the modelled fragment (state unchanged; caller stops comparing this program)
@@ -12,6 +12,7 @@ let z_of_dec (s : ostring) : z =
   else if v = Int64.min_int then z_of_hex "-8000000000000000"
   else z_of_hex ("-" ^ Printf.sprintf "%Lx" (Int64.neg v))
 let state = ref init_state
+let nstep = ref 0
 let split_bar (l : ostring) = List.map words (String.split_on_char '|' l)
 let nat s = nat_of_int (int_of_string s)
 let hint_int v = if String.length v > 1 && v.[0] = 'i' then Some (z_of_dec (String.sub v 1 (String.length v - 1))) else None
@@ -21,12 +22,16 @@ let print_state leak =
   let m = !state in
   let rows = live_rows m in
   let b = Buffer.create 256 in
+  (* the executable invariant costs O(cells^2): evaluated on every step while the heap is small, then on every 64th step
+     (2 = not evaluated; the per-step comparison of ref_counts and in-degrees with the audited real VM does not depend on it) *)
+  incr nstep;
+  let full = List.length m.hp.cells <= 160 || !nstep land 63 = 0 in
   Buffer.add_string b (Printf.sprintf "S %d %d %d %d %d" (List.length m.stack) (List.length m.frames) (if leak then 1 else 0)
-    (if inv_b m && intern_b m.hp then 1 else 0) (if exact_b m then 1 else 0));
+    (if not full then 2 else if inv_b m && intern_b m.hp then 1 else 0) (if not full then 2 else if exact_b m then 1 else 0));
   List.iter (fun (((i, t), rc), ind) ->
     Buffer.add_string b (Printf.sprintf " %d:%d:%d:%d" (int_of_nat i) (int_of_nat t) (int_of_nat rc) (int_of_nat ind))) rows;
   Buffer.add_char b '\n'; print_string (Buffer.contents b)
-let instr_of (op : int) (ops : ostring list) (p : ostring list) (c : ostring list) (k : ostring) : instr option =
+let instr_of (op : int) (ops : ostring list) (p : ostring list) (c : ostring list) (k : ostring) (d : int) : instr option =
   let p0 = List.nth p 0 and p1 = List.nth p 1 in
   let key () = nat k in
   let okey () = if int_of_string k >= 0 then Some (nat k) else None in
@@ -69,7 +74,9 @@ let instr_of (op : int) (ops : ostring list) (p : ostring list) (c : ostring lis
   | 0x3c -> if callee_ok () then Some (ICallIndirect (ar (), lc (), true)) else Some (ICallIndirect (O, O, false))
   | 0x91 -> if callee_ok () then Some (IClosureCall (ar (), lc (), true)) else Some (IClosureCall (O, O, false))
   | 0x3d -> Some IRet
-  | 0x3e -> if callee_ok () then Some (ICallExtern (ar (), okey ())) else Some INop
+  | 0x3e -> if not (callee_ok ()) then Some INop
+            else if d <> 1 - int_of_string (List.nth c 0) then Some (IPopDrop (ar (), false))   (* the FFI call failed: arguments gone, no result *)
+            else Some (ICallExtern (ar (), okey ()))
   | _ -> None
 (* Coq source text of an instruction (used by tools/gen/gen_churn14.py to translate logged streams into NV/gen/ChurnC14.v) *)
 let dz (x : z) : ostring = let h = hex_of_z x in
@@ -102,12 +109,12 @@ let coq_of_instr (i : instr) : ostring = match i with
 let () = iter_lines (fun line ->
   match split_bar line with
   | ["R"] :: _ -> state := init_state; print_string "ok\n"
-  | ("C" :: _ :: _ :: oph :: _ :: _ :: ops) :: ("p" :: p) :: ("c" :: c) :: ["k"; k] :: _ ->
-      (match instr_of (int_of_string ("0x" ^ oph)) ops p c k with
+  | ("C" :: _ :: _ :: oph :: _ :: _ :: ops) :: ("p" :: p) :: ("c" :: c) :: ["k"; k] :: ["d"; d] :: _ ->
+      (match instr_of (int_of_string ("0x" ^ oph)) ops p c k (int_of_string d) with
        | None -> print_string "U\n"
        | Some i -> print_string (coq_of_instr i ^ "\n"))
-  | ("I" :: _ :: _ :: oph :: _ :: _ :: ops) :: ("p" :: p) :: ("c" :: c) :: ["k"; k] :: _ ->
-      (match instr_of (int_of_string ("0x" ^ oph)) ops p c k with
+  | ("I" :: _ :: _ :: oph :: _ :: _ :: ops) :: ("p" :: p) :: ("c" :: c) :: ["k"; k] :: ["d"; d] :: _ ->
+      (match instr_of (int_of_string ("0x" ^ oph)) ops p c k (int_of_string d) with
        | None -> print_string ("U opcode " ^ oph ^ "\n")
        | Some i ->
          let leak = step_leaks i !state in
